@@ -4,7 +4,7 @@
 Require Import LdkV.Prim.U64 LdkV.Model.Shachain LdkV.Model.Justice LdkV.Proofs.C06Justice
   LdkV.Gen.Consts LdkV.Gen.Package LdkV.Proofs.C06Fee LdkV.Crypto.Sha256 LdkV.Gen.C06Pins.
 (* (not imported: their names -- tx, step, run, filter_block -- would shadow those of Model/Justice.v) *)
-Require LdkV.Model.ChainView LdkV.Proofs.C11 LdkV.Proofs.C06Reorg.
+Require LdkV.Model.ChainView LdkV.Proofs.C11 LdkV.Proofs.C06Reorg LdkV.Model.PackageTimer LdkV.Proofs.C06Bump.
 Open Scope Z_scope.
 
 (** For EVERY hash function, seed, assignment of commitments (any HTLC lists, dust or not, both
@@ -235,3 +235,78 @@ Example C06_example_reorg_on_fork_point :
   ChainView.emitted (ChainView.run (C11.fresh 100 1100) (map ChainView.BC (rev (C06Reorg.final_stack [] ex_hist)))) =
     [ChainView.mkEm 7 1 101 106].
 Proof. vm_compute. repeat split; reflexivity. Qed.
+
+(** * [bumped_until_buried], continued (Proofs/C06Bump.v): the claim timeline of [C06_bumped_until_buried] with the
+    REAL timer function ([PackageTemplate::get_height_timer], C07's Model/PackageTimer.v, for ANY set of inputs)
+    and the regenerated bump rule, for EVERY estimate trajectory, while bumps stay affordable. *)
+
+(** (a) liveness shape: a (re)broadcast happens at every timer expiry and timers are at most
+    LOW_FREQUENCY_BUMP_INTERVAL apart, so over [n] blocks MORE than (n - (first timer - start)) /
+    LOW_FREQUENCY_BUMP_INTERVAL attempts are made: before a deadline D blocks away (the cheater's CSV, an
+    HTLC's CLTV) at least that many ever-higher bids are out *)
+Theorem C06_bumped_until_buried_attempts : forall w amt dust est (inputs : list PackageTimer.pinput) csh,
+  8 <= w -> 0 < dust ->
+  forall c0 h0 (n : nat), 4 <= c_rate c0 -> h0 < c_timer c0 ->
+  (forall k : nat, (k < n)%nat -> forall c, affordable w amt dust est c (h0 + Z.of_nat (S k))) ->
+  Z.of_nat n - (c_timer c0 - h0) <
+  LOW_FREQUENCY_BUMP_INTERVAL * Z.of_nat (List.length (snd (run_blocks w amt dust est (C06Bump.rtimer inputs csh) c0 h0 n))).
+Proof. exact C06Bump.attempts_lower_bound. Qed.
+
+(** (b) every attempt of the timeline satisfies the RBF rule against the previous one -- absolute fee up by
+    at least the incremental relay fee for its weight, feerate strictly up (the previous feerate being the
+    one STORED by the previous attempt) --, and fee plus dust limit stay within the value claimed *)
+Theorem C06_bumped_until_buried_rbf : forall w amt dust est (inputs : list PackageTimer.pinput) csh,
+  8 <= w -> 0 < dust ->
+  forall c0 h0, 4 <= c_rate c0 -> h0 < c_timer c0 ->
+  forall n : nat,
+  (forall k : nat, (k < n)%nat -> forall c, affordable w amt dust est c (h0 + Z.of_nat (S k))) ->
+  let '(c, log) := run_blocks w amt dust est (C06Bump.rtimer inputs csh) c0 h0 n in
+  4 <= c_rate c /\
+  h0 + Z.of_nat n < c_timer c <= c_timer c0 + LOW_FREQUENCY_BUMP_INTERVAL * Z.of_nat (List.length log) /\
+  (forall pre h f r post, log = pre ++ (h, f, r) :: post ->
+     let prev := match rev pre with [] => c_rate c0 | (_, _, r') :: _ => r' end in
+     prev * w / 1000 + INCREMENTAL_RELAY_FEE_SAT_PER_1000_WEIGHT * w / 1000 <= f /\ prev < r /\ r = f * 1000 / w /\
+     f + dust <= amt) /\
+  (log = [] -> c_rate c = c_rate c0) /\
+  (forall pre h f r, log = pre ++ [(h, f, r)] -> c_rate c = r).
+Proof. exact C06Bump.run_attempts. Qed.
+
+(** one forced bump of the regenerated [feerate_bump], any estimate *)
+Theorem C06_force_bump_rbf : forall w amt dust p sweep f r,
+  0 < w -> 4 <= p ->
+  feerate_bump w amt dust p FeerateStrategy_ForceBump sweep = Some (f, r) ->
+  p * w / 1000 + INCREMENTAL_RELAY_FEE_SAT_PER_1000_WEIGHT * w / 1000 <= f /\
+  r = f * 1000 / w /\
+  (0 < dust -> f + dust <= amt).
+Proof. exact C06Bump.force_bump_rbf. Qed.
+
+(** what does NOT hold (finding C06-F1): "a claim never pays more than 80 % of its value in fees". Estimate
+    flat at the floor, timer firing every block: after 34 blocks the 1000-weight claim on 1 000 000 sat
+    pays 816 593 sat, and in the next 30 blocks nothing is re-issued at all (no further bump fits) *)
+Theorem C06_fee_burn_bound_refuted :
+  exists n : nat,
+    let '(c, log) := run_blocks 1000 1000000 546 (fun _ => 253) (fun h => h + 1) (mkClaim 253 253 101 100) 100 n in
+    let '(c', log') := run_blocks 1000 1000000 546 (fun _ => 253) (fun h => h + 1) (mkClaim 253 253 101 100) 100 (n + 30) in
+    8 * 1000000 <= 10 * c_fee c /\ c_fee c + 546 <= 1000000 /\ log' = log.
+Proof. exact C06Bump.burn_bound_witness. Qed.
+
+(** (c) a request is dropped only when the entry of its confirmed claim (or of the conflicting spend) in
+    the awaiting-threshold-confirmation table matures: for ANY operation list on the table model
+    (connections, disconnections, re-deliveries) every conclusion about a transaction confirmed at [c] is
+    drawn at a best height of at least c + ANTI_REORG_DELAY - 1; by [C06_reorg_history_is_straight_line]
+    the conclusions are those of the final chain *)
+Theorem C06_request_dropped_only_when_buried : forall h0 hash0 ops,
+  Forall C11.op_ok ops ->
+  forall m, In m (ChainView.emitted (ChainView.run (C11.fresh h0 hash0) ops)) ->
+  ChainView.m_conf m + ANTI_REORG_DELAY - 1 <= ChainView.m_at m.
+Proof. exact C06Bump.dropped_only_when_buried. Qed.
+
+(** non-vacuity of (a)/(b): a justice claim on a revoked to_local output the cheater can spend from height
+    1000 on (far away: [get_height_timer] fires every LOW_FREQUENCY_BUMP_INTERVAL = 15 blocks; with that height
+    in the past it fires every block, which is the setting of [C06_fee_burn_bound_refuted]), estimate doubling
+    at height 130: 4 attempts in 60 blocks, each above the previous by at least the relay increment *)
+Example C06_example_attempts :
+  snd (run_blocks 1000 1000000 546 (fun h => if h <? 130 then 253 else 506)
+         (C06Bump.rtimer [PackageTimer.RevokedOutput] 1000) (mkClaim 253 253 101 100) 100 60) =
+  [(101, 506, 506); (116, 759, 759); (131, 1012, 1012); (146, 1265, 1265)].
+Proof. vm_compute. reflexivity. Qed.
